@@ -21,7 +21,7 @@ from fractions import Fraction
 
 import numpy as np
 
-from .. import env, tlc, kernels
+from .. import env, tlc, kernels, lossprob
 from ..evidence import Check
 
 MC = "---- MODULE MC_Em ----\nEXTENDS Emission\nEpsDef == {<<1,1000>>, <<1,100>>, <<2,5>>}\nTsDef == {<<1,1>>, <<3,4>>, <<1,10>>}\n====\n"
@@ -251,6 +251,8 @@ def run(corrupt=None):
     mixed_file(ck, recs, G, ck.seed)
     mixed_file(ck, recs, G, ck.seed + 1)
     cluster_part(ck)
+    lossprob.model_runs(ck, thorough)
+    lossprob.bind(ck, "C05", 240 if thorough else 60, (0, 3), ck.seed, want_order=False)
     shutil.rmtree(workdir, ignore_errors=True)
     ck.sample({"cfg": recs[0]["cfg"], "genotypes": recs[0]["genotypes"], "vaf_first_genotype": recs[0]["vaf"][0]})
     ck.rule = ("copy-number / error-rate / tumour-content configurations enumerated by TLC (quick: seeded sample of 120 of 243; thorough: all incl. major 4) x 4-7 "
